@@ -39,7 +39,14 @@ local function mk(idx, nidx, lenmode, own, back)
   elseif nidx == "t" then mt.__newindex = back any = true
   elseif nidx == "e" then mt.__newindex = function() error("newindex handler") end any = true end
   if lenmode == "b" then mt.__len = function() return #back end any = true
-  elseif lenmode ~= "r" then mt.__len = function() return lenmode end any = true end
+  elseif type(lenmode) == "number" then mt.__len = function() return lenmode end any = true
+  elseif lenmode ~= "r" then
+    -- F<k>: the integral float k.0   S<k>: the numeric string "k"   X: 2.5   N: not a number
+    local f, sk = lenmode:match("^F(-?%d+)$"), lenmode:match("^S(-?%d+)$")
+    local res
+    if f then res = tonumber(f) + 0.0 elseif sk then res = sk elseif lenmode == "X" then res = 2.5 else res = true end
+    mt.__len = function() return res end any = true
+  end
   if any then setmetatable(own, mt) end
   return own
 end
@@ -81,6 +88,7 @@ type env struct {
 	cpu    uint64
 	mem    uint64
 	nlines int
+	conv   bool // also issue every call with its integer arguments as floats / numeric strings
 }
 
 func newEnv() *env {
@@ -221,12 +229,10 @@ func (e *env) build(s tabSpec) liveTab {
 		e.r.SetTable(back, rt.IntValue(p.k), p.v)
 	}
 	var lenArg rt.Value
-	switch l := s.kind[2:]; l {
-	case "r", "b":
-		lenArg = rt.StringValue(l)
-	default:
-		n, _ := strconv.ParseInt(l, 10, 64)
+	if n, err := strconv.ParseInt(s.kind[2:], 10, 64); err == nil {
 		lenArg = rt.IntValue(n)
+	} else {
+		lenArg = rt.StringValue(s.kind[2:]) // r, b, F<k>, S<k>, X, N
 	}
 	class, res, msg := hlib.PCall(e.r, e.mk, rt.StringValue(s.kind[0:1]), rt.StringValue(s.kind[1:2]), lenArg,
 		rt.TableValue(own), rt.TableValue(back))
@@ -354,8 +360,49 @@ func (e *env) encRes(v rt.Value, t1, t2 *liveTab) string {
 	return hlib.Enc(v)
 }
 
+// convVariants: the same call with one integer argument given as an integral float, as a decimal string
+// (both must behave like the integer: luaL_checkinteger / lua_tointegerx) and as a non-integral float (must
+// raise "number has no integer representation").  math.maxinteger as a float is 2^63, which has no integer
+// representation either; math.mininteger is exactly representable.
+func convVariants(toks []string, from int) [][]string {
+	var out [][]string
+	for k := from; k < len(toks); k++ {
+		t := toks[k]
+		if len(t) < 2 || t[0] != 'i' {
+			continue
+		}
+		n, err := strconv.ParseInt(t[1:], 10, 64)
+		if err != nil {
+			continue
+		}
+		with := func(v string) {
+			a := append([]string{}, toks...)
+			a[k] = v
+			out = append(out, a)
+		}
+		f := float64(n)
+		if n == math.MaxInt64 || n == math.MinInt64 || (n > -(1<<53) && n < 1<<53) {
+			with(fmt.Sprintf("f%016x", math.Float64bits(f)))
+		}
+		if n > -(1<<53) && n < 1<<53 {
+			with(stok(strconv.FormatInt(n, 10)))
+			with(fmt.Sprintf("f%016x", math.Float64bits(f+0.5)))
+		}
+	}
+	return out
+}
+
 // runS: string function call; limited = inside a context with limits.
 func (e *env) runS(tag, fn string, toks []string) {
+	e.runS1(tag, fn, toks)
+	if e.conv {
+		for _, v := range convVariants(toks, 1) {
+			e.runS1(tag, fn, v)
+		}
+	}
+}
+
+func (e *env) runS1(tag, fn string, toks []string) {
 	in := tag + " " + fn
 	if len(toks) > 0 {
 		in += " " + strings.Join(toks, " ")
@@ -389,6 +436,19 @@ func (e *env) runS(tag, fn string, toks []string) {
 
 // runT: table function call.  tabs: 0, 1 or 2 table descriptions (nil = "-").
 func (e *env) runT(fn string, s1, s2 *tabSpec, toks []string) {
+	e.runT1(fn, s1, s2, toks)
+	if e.conv && fn != "sort" && fn != "pack" {
+		last := len(toks)
+		if fn == "insert" && last == 3 {
+			last = 2 // the value being inserted is not a position
+		}
+		for _, v := range convVariants(toks[:last], 1) {
+			e.runT1(fn, s1, s2, append(v, toks[last:]...))
+		}
+	}
+}
+
+func (e *env) runT1(fn string, s1, s2 *tabSpec, toks []string) {
 	var t1, t2 *liveTab
 	in := "T " + fn
 	if s1 != nil {
@@ -502,9 +562,11 @@ func (e *env) enumStrings(thorough bool) {
 	if thorough {
 		pats = all
 	}
-	for _, s := range all {
+	for idx, s := range all {
 		S := stok(s)
 		pos := positions(len(s))
+		// the shortest strings: every call again with each position as a float / numeric string
+		e.conv = idx < 11
 		for _, i := range pos {
 			e.runS("S", "sub", []string{S, itok(i)})
 			e.runS("S", "byte", []string{S, itok(i)})
@@ -517,6 +579,7 @@ func (e *env) enumStrings(thorough bool) {
 		for _, fn := range []string{"upper", "lower", "reverse", "len"} {
 			e.runS("S", fn, []string{S})
 		}
+		e.conv = idx < 6
 		for _, p := range pats {
 			P := stok(p)
 			e.runS("S", "find", []string{S, P})
@@ -528,6 +591,7 @@ func (e *env) enumStrings(thorough bool) {
 			}
 		}
 	}
+	e.conv = false
 	for b := 0; b < 256; b++ {
 		S := stok(string([]byte{byte(b)}))
 		for _, fn := range []string{"upper", "lower", "reverse", "len"} {
@@ -535,6 +599,7 @@ func (e *env) enumStrings(thorough bool) {
 		}
 	}
 	// rep
+	e.conv = true
 	for _, s := range stringsUpTo(2) {
 		for _, n := range []int64{math.MinInt64, -2, -1, 0, 1, 2, 3, 5} {
 			e.runS("S", "rep", []string{stok(s), itok(n)})
@@ -555,6 +620,7 @@ func (e *env) enumStrings(thorough bool) {
 			}
 		}
 	}
+	e.conv = false
 	for _, t := range badArgs {
 		e.runS("S", "char", []string{"i65", t})
 	}
@@ -611,6 +677,9 @@ func configs(seq []rt.Value, level int) []tabSpec {
 			tabSpec{"ttb", nil, all},
 			tabSpec{"feb", nil, all},
 			tabSpec{"ff" + strconv.Itoa(n+1), nil, all},
+			// __len results that luaL_len has to convert: an integral float, a numeric string
+			tabSpec{"ffF" + strconv.Itoa(n), nil, all},
+			tabSpec{"ttS" + strconv.Itoa(n), nil, all},
 		)
 	}
 	if level >= 2 {
@@ -619,6 +688,11 @@ func configs(seq []rt.Value, level int) []tabSpec {
 			tabSpec{"fnr", seqKV(seq[:h]), all},
 			tabSpec{"efb", nil, all},
 			tabSpec{"tfb", nil, all},
+			tabSpec{"nnF" + strconv.Itoa(n), all, nil},
+			tabSpec{"ffS" + strconv.Itoa(n), nil, all},
+			// … and those it must refuse: a non-integral float, a non-number
+			tabSpec{"ffX", nil, all},
+			tabSpec{"nnN", all, nil},
 		)
 		if n >= 1 {
 			out = append(out,
@@ -643,8 +717,11 @@ func (e *env) enumTables(thorough bool) {
 		n := len(seq)
 		pos := positions(n)
 		lvl := 2
-		for _, c := range configs(seq, lvl) {
+		for ci, c := range configs(seq, lvl) {
 			c := c
+			// short sequences, plain table and function proxy: every call again with each position as a float /
+			// numeric string / non-integral float
+			e.conv = (si == 1 || si == 3) && ci < 2
 			// insert
 			for _, v := range []string{"i99", "n"} {
 				e.runT("insert", &c, nil, []string{"T", v})
@@ -681,6 +758,21 @@ func (e *env) enumTables(thorough bool) {
 				}
 			}
 		}
+		e.conv = false
+		if si == 3 {
+			e.conv = true
+			for _, c := range configs(seq, 0)[:2] {
+				c := c
+				for _, f := range []int64{0, 1, 2} {
+					for _, en := range []int64{1, 3} {
+						for _, t := range []int64{0, 2, 4} {
+							e.runT("move", &c, nil, []string{"T", itok(f), itok(en), itok(t)})
+						}
+					}
+				}
+			}
+			e.conv = false
+		}
 		// move: the full cube for base sequences; a thinner one for the extra sequences
 		mlvl := 0
 		if si < len(base) {
@@ -696,6 +788,9 @@ func (e *env) enumTables(thorough bool) {
 		}
 		for _, c := range configs(seq, mlvl) {
 			c := c
+			if strings.ContainsAny(c.kind[2:3], "FSXN") {
+				continue // move never asks for the length: these shapes add nothing here
+			}
 			for _, f := range pos {
 				for _, en := range pos {
 					for _, t := range pos {
@@ -934,6 +1029,57 @@ func (e *env) sorts(thorough bool) {
 			}
 			e.sortOne(c, "")
 			for _, cmp := range cmpNames {
+				e.sortOne(c, cmp)
+			}
+		}
+	}
+	// values on which a sloppy `<` differs from Lua's: integers beyond 2^53, integers next to floats, signed zeros,
+	// infinities, NaN; strings ordered bytewise (bytes >= 0x80, embedded zeros, prefixes, "10" vs "9", "Z" vs "a");
+	// numbers mixed with strings (must raise).  Every ordered pair, then shuffled longer sequences.
+	p53 := int64(1) << 53
+	nums := []rt.Value{rt.IntValue(0), rt.IntValue(1), rt.IntValue(2), rt.IntValue(-1), rt.IntValue(p53 - 1), rt.IntValue(p53),
+		rt.IntValue(p53 + 1), rt.IntValue(math.MaxInt64 - 1), rt.IntValue(math.MaxInt64), rt.IntValue(math.MinInt64), rt.IntValue(math.MinInt64 + 1),
+		rt.FloatValue(math.Copysign(0, -1)), rt.FloatValue(0), rt.FloatValue(1), rt.FloatValue(1.5), rt.FloatValue(0.5), rt.FloatValue(-1),
+		rt.FloatValue(float64(p53)), rt.FloatValue(float64(p53) + 2), rt.FloatValue(math.Ldexp(1, 63)), rt.FloatValue(-math.Ldexp(1, 63)),
+		rt.FloatValue(math.Inf(1)), rt.FloatValue(math.Inf(-1))}
+	strs := svals("", "a", "Z", "A", "a\x00", "a\x00b", "ab", "aa", "b", "\xff", "\x80", "\x7f", "10", "9", "\xc3\xa9")
+	odd := []rt.Value{rt.FloatValue(math.NaN()), rt.BoolValue(true)}
+	pool := append(append(append([]rt.Value{}, nums...), strs...), odd...)
+	pairCmps := []string{"", "lt", "gt", "le", "ge", "ne"}
+	for i, a := range pool {
+		for j, b := range pool {
+			c := tabSpec{"nnr", seqKV([]rt.Value{a, b}), nil}
+			if (i+j)%4 == 1 {
+				c = tabSpec{"ffb", nil, seqKV([]rt.Value{a, b})}
+			}
+			for _, cmp := range pairCmps {
+				e.sortOne(c, cmp)
+			}
+		}
+	}
+	shuffles := 8
+	if thorough {
+		shuffles = 60
+	}
+	withNaN := append(append([]rt.Value{}, nums...), odd[0])
+	mixed := append(append([]rt.Value{}, nums[:6]...), strs[:6]...)
+	for pi, pl := range [][]rt.Value{nums, strs, withNaN, mixed} {
+		for r := 0; r < shuffles; r++ {
+			seq := append([]rt.Value{}, pl...)
+			for i := len(seq) - 1; i > 0; i-- {
+				j := rng.Below(i + 1)
+				seq[i], seq[j] = seq[j], seq[i]
+			}
+			if r%2 == 1 {
+				seq = seq[:3+rng.Below(len(seq)-3)]
+			}
+			cs := configs(seq, 1)
+			c := cs[(pi+r)%len(cs)]
+			e.sortOne(c, "")
+			for _, cmp := range cmpNames {
+				if cmp == "mod3" || cmp == "abs" {
+					continue
+				}
 				e.sortOne(c, cmp)
 			}
 		}
